@@ -94,6 +94,14 @@ def r3(F, rep):
                 return has_bins, has_mult
             rep.add("C15-R3", "%s|raw|%s" % (inst, kind), wr[0].loc(), "write_raw %s ; read_raw %s (bins loop, mult loop)" % (
                 nest(wr[0]), nest(cand_r[0])), nest(wr[0]) == nest(cand_r[0]) == (True, True), func=wr[0].q)
+            # element convention: the writer streams the OUTPUT form of an element (value_output: a mean for grids with a
+            # count grid), the reader stores through the INPUT form (value_input: multiplies back by the count)
+            acc_w = sorted({X.callee_name(c) for c in X.calls(wr[0]) if X.callee_name(c) in ("value", "value_output", "value_output_smoothed", "raw_value")})
+            acc_r = sorted({X.callee_name(c) for c in X.calls(cand_r[0]) if X.callee_name(c) in ("set_value", "value_input", "acc_value")})
+            rep.add("C15-R3", "%s|raw-element|%s" % (inst, kind), wr[0].loc(), "write_raw emits elements through %s, read_raw stores them through %s" % (
+                acc_w or "?", acc_r or "?"), acc_w == ["value_output"] and acc_r == ["value_input"],
+                detail="value_output()/value_input() are inverse conventions (mean <-> sum for count-normalised grids): a writer that emits raw "
+                       "sums makes the reader multiply them by the count once more", func=wr[0].q)
     # restart order
     for f in F.funcs.values():
         if f.name == "read_restart_template_":
